@@ -58,11 +58,9 @@ fn both(args: &[String]) {
                 dropped += 1;
                 continue;
             }
+            // (the VM finished well inside the limit: a derived parser that runs into it on the same case does
+            // not behave like the VM, and the case is kept - its outcome is the call-limit error)
             let g = parsers::run(gi, start, &inp);
-            if g["limit_reached"] == true {
-                dropped += 1;
-                continue;
-            }
             if v["k"] == "fail" {
                 fails += 1;
             }
